@@ -1,15 +1,28 @@
 (* C14 — A waiting request takes a freed connection; its own dial is not wasted.
-   Statements only; proofs in pool/ProofsLite.v, pool/ProofsLite2.v.
-   FULL STATEMENT: forall cfg ops, mon_C14 cfg ops (trace cfg ops) = true.
-   PROVED SO FAR (partial), for all states: a non-shareable connection pushed into the pool while a
-   live waiter is queued for its origin is moved to that waiter and NOT added to the idle list; a
-   connecting checkout keeps its receiver across NotReady polls (D3 repair) and takes a delivered
-   connection at its very next poll, before looking at its own connector; a dropped checkout
-   re-spawns its connector exactly when it was created under continue_after_preemption, and otherwise
-   its dial is Gone afterwards.
-   MISSING: the tracker simulation (which requests are live waiters of which origin) and the
-   background-completion clause for abandoned dials. *)
-From HD Require Import common.Base http.Model pool.Model pool.Spec pool.ProofsLite pool.ProofsLite2.
+   MAIN THEOREM (proved, no axioms): for every configuration and every operation sequence the executable
+   monitor mon_C14 (pool/Spec.v) accepts the trace of the pool model:
+       c14_monitor : forall cfg ops, mon_C14 cfg ops (trace cfg ops) = true.
+   Proof (pool/ProofsC14.v): the monitor is split into one monitor per clause (pool/BaseC14.v, mon_C14_split):
+     (a1) a released open connection is not parked while a request waits for its origin
+          - model invariant "no token has an idle entry and a queued waiter at once" (pool/TokC14.v);
+     (a2) a request that was offered a connection takes it at its next poll
+          - tracker/model relation R4 (pool/ATrkC14.v) on top of the linearity invariant of C02 and the key
+            environment of C06;
+     (a3) a request is not left waiting for its own dial while an open, usable non-shared connection for its
+          origin sits parked: a request whose poll returns Pending is still queued under its token, so that
+          token's idle list is empty (pool/WaitC14.v, pool/A3C14.v);
+     (b)  the connection of an abandoned attempt ends up available in the pool (idle, surplus, or offered
+          to a request that was already waiting), and only with continue_after_preemption
+          - obligations discharged within the same run of the background tasks (pool/OblC14.v, pool/BTrkC14.v);
+     (b') an abandoned dial whose outcome has been scripted completes at the next run of the background tasks
+          - model invariant MD and the run-queue fuel argument (pool/DialC14.v, pool/BgC14.v).
+   The per-primitive lemmas below (all states, all inputs) are kept: they are the building blocks of the
+   argument and still hold. *)
+From HD Require Import common.Base http.Model pool.Model pool.Spec pool.ProofsLite pool.ProofsLite2 pool.ProofsC14.
+
+Theorem c14_monitor : forall cfg ops, mon_C14 cfg ops (trace cfg ops) = true.
+Proof. exact mon_C14_holds. Qed.
+Print Assumptions c14_monitor.
 
 Theorem c14_offer_before_park_partial : forall n t c s,
   share_of s c = false ->
